@@ -27,6 +27,13 @@
    (found by this check, since repaired in /repo by two fix: commits):
      - a fixed-length Tuple field given a value without a length: [Err Mismatch path] (was TypeError);
      - a float field given an integer beyond the float range: [Err Mismatch path] (was OverflowError).
+   OPEN CHOICES (what C16 does not fix is a parameter / an allowed-outcome set of the model, with the code's
+   current behaviour as one element; Properties.v proves C16's clauses for every element):
+     - line-break rendering of the comment-free intermediate text: [strip_ok] (pinned: [strip]);
+     - layout of the dumped text: any text the scanner leaves alone (pinned: [jprint]);
+     - alternative spellings of supported annotations ([AAlt], policy [pol]; pinned: all refused);
+     - error messages are modelled as (configuration error, item path) only; the [ekind] / [ckind] tags are
+       internal to the model and its theorems and are not compared with the implementation.
    Outside the model: data that is not JSON data (tuples, dataclass instances, non-string keys);
    the annotation None / NoneType; f.init = False fields.
    Text is a list of code points (N).  A float is an opaque atom: the text of its repr. *)
